@@ -270,6 +270,15 @@ func (mi *MessageInfo) unmarshalPointerLazy(b []byte, p pointer, groupTag protow
 				case lazyFields == nil || lazyFields[f] == lazyValidateOnly:
 					// Attempt to validate this field and leave it for later lazy unmarshaling.
 					o, valid := mi.skipField(b, f, wtyp, opts)
+					if valid == ValidationValid && !o.initialized && opts.flags&piface.UnmarshalCheckRequired != 0 {
+						// A field that is kept lazily is exempt from later
+						// initialization checks on the grounds that it was
+						// checked on unmarshal. That check happens on the
+						// decoded message, so a field which lacks required
+						// fields must be decoded when the caller wants them
+						// checked: handle it like a field we cannot validate.
+						valid = ValidationUnknown
+					}
 					switch valid {
 					case ValidationValid:
 						// Skip over the valid field and continue.
